@@ -152,6 +152,10 @@ func (i *IfUnless) beforeEval(
 	ctx context.Context,
 ) error {
 
+	// p is a copy: the condition is evaluated here only to look ahead and is
+	// evaluated again by the caller, so nothing it does may be recorded twice
+	p.IsLookAhead = true
+
 	nextT, err := p.Read()
 	if err != nil {
 		p.Fatal(ctx, err)
